@@ -8,12 +8,13 @@
 //! Exit codes: 0 held, 1 violation (with a `VIOLATION property=<id> replay=<path>` line),
 //! 2 harness error.
 
-mod c18;
-mod c19;
-mod core;
-mod rng;
 
-use crate::core::{digest_cmd, replay_file, run_check, show_cmd, BatchConfig, Known, Tier, World, DEFAULT_SEED};
+
+
+
+
+
+use simcore::core::{digest_cmd, replay_file, run_check, show_cmd, BatchConfig, Known, Tier, World, DEFAULT_SEED};
 use std::path::PathBuf;
 
 fn arg_value(args: &[String], name: &str) -> Option<String> {
@@ -61,6 +62,7 @@ fn config(args: &[String]) -> BatchConfig {
 
 fn with_world<R>(id: &str, f: impl FnOnce(&dyn Dispatch) -> R) -> Option<R> {
     match id {
+        "C13" => Some(f(&c13::C13::new())),
         "C18" => Some(f(&c18::C18::new())),
         "C19" => Some(f(&c19::C19::new())),
         _ => None,
@@ -92,7 +94,7 @@ impl<W: World> Dispatch for W {
 
 fn main() {
     let args: Vec<String> = std::env::args().collect();
-    crate::core::install_panic_hook();
+    simcore::core::install_panic_hook();
     let code = real_main(&args);
     std::process::exit(code);
 }
